@@ -113,6 +113,11 @@ def alphabet18(P):
             b"/lib/a.so # needs libsnoopy.so", b"  # indented libsnoopy.so", P + b"\r"]
 
 
+def near_miss():
+    """lines that a changed search needle (shorter, longer, other case) would classify differently"""
+    return [b"/opt/mysnoopy.so", b"/lib/libsnoopy-extra.so", b"/lib/libsnoopy.s", b"/lib/LIBSNOOPY.SO", b"/lib/libsnoopy.so.1"]
+
+
 def alphabet19(P):
     return [b"/lib/foreign.so", b"# libsnoopy.so x libsnoopy.so x libsnoopy.so", b"", P, P + b" \t", P + b" # c " + P, P + b"#", P + b" /lib/other.so",
             P + b"\t/lib/b.so  /lib/c.so # c", b"/lib/other.so " + P, b"/opt/x/libsnoopy.so", P + b"x", P + b"\r", b" " + P, b"#" + P, P + b" " + P]
@@ -131,7 +136,7 @@ def files(alpha, maxlines):
 
 
 def random_files(rng, P, n, alpha):
-    frag = [b"libsnoopy.so", b"libsnoopy.s", P, P[:-1], b"#", b" ", b"\t", b"\r", b"/", b"a", b"lib", b".so", b":", b"\xc3\xa9", b"\x01", b"\xff"]
+    frag = [b"libsnoopy.so", b"libsnoopy.s", b"snoopy.so", b"libsnoopy", P, P[:-1], b"#", b" ", b"\t", b"\r", b"/", b"a", b"lib", b".so", b":", b"\xc3\xa9", b"\x01", b"\xff"]
     out = []
     for _ in range(n):
         nl = rng.choice([1, 2, 5, 8, 13, 40])
